@@ -34,8 +34,11 @@ func (self *Interpreter) importItem(node ast.AnalyzedImport) *value.Interrupt {
 
 	if moduleFound {
 		// visit the module so that the root scope is populated
-		if i := self.execModule(node.FromModule.Ident(), true); i != nil {
-			return i
+		// (once: a module imported by several modules is one instance, its globals are initialised a single time)
+		if _, alreadyExecuted := self.modules[node.FromModule.Ident()]; !alreadyExecuted {
+			if i := self.execModule(node.FromModule.Ident(), true); i != nil {
+				return i
+			}
 		}
 
 		for _, importItem := range node.ToImport {
